@@ -84,6 +84,10 @@ func runC14Once(sc c14Scenario, r *xrun) []Violation {
 		return []Violation{{Key: "harness:c14-save", Msg: err.Error()}}
 	}
 	file := bwu.StatusFileName()
+	initRec := &workceptor.StatusFileData{}
+	if err := initRec.Load(file); err != nil {
+		return []Violation{{Key: "harness:c14-load", Msg: err.Error()}}
+	}
 	s := newScheduler()
 	if sc.Try {
 		s.tryBlocked = true
@@ -188,6 +192,13 @@ func runC14Once(sc c14Scenario, r *xrun) []Violation {
 						loads = append(loads, loadObs{name, from, len(history) - 1, c14Abs{}, err})
 					}
 					mu.Unlock()
+				case "W":
+					// another process stores, in full, the record it holds (the way a unit is first written and the way
+					// a remote unit's record is re-saved); here it holds the initial record, so no field changes and
+					// every reader must still see that complete record
+					if err := initRec.Save(file); err != nil {
+						out.violate("status:update-failed", "%s: %v", name, err)
+					}
 				case "L1":
 					mu.Lock()
 					from := len(history) - 1
@@ -293,6 +304,9 @@ func runC14(w *W) {
 		{"runner rewrites while the daemon discovers the unit on disk; the real file lock decides", []string{"R1", "S"}, b, true},
 		{"runner rewrites twice, stdout writer, discovery on disk; the real file lock decides", []string{"R1x2", "R2", "S"}, 1, true},
 		{"daemon writers, daemon reader", []string{"D1", "D2", "L2"}, b, false},
+		{"whole-record save by another process, two readers", []string{"W", "L1", "L2"}, b, false},
+		{"whole-record save twice, reader twice", []string{"Wx2", "L1x2"}, b, false},
+		{"whole-record save, reader; the real file lock decides", []string{"W", "L1"}, b, true},
 		{"cancel-style update (size unchanged) + stdout writer twice", []string{"D3", "R2x2"}, b, false},
 		{"cancel-style update + stdout writer + daemon reader", []string{"D3", "R2", "L2"}, b, false},
 		{"cancel-style update + daemon writer + stdout writer", []string{"D3", "D2", "R2"}, b, false},
